@@ -59,6 +59,8 @@ type c09Scenario struct {
 	Kind   string `json:"kind"` // account commodity payee
 	Counts []int  `json:"occurrences"`
 	Decl   int    `json:"declaration_in"` // -1 none
+	// DiagOff: the server is initialised with features.diagnostics=false
+	DiagOff bool `json:"diagnostics_feature_off,omitempty"`
 	// DeclTwice: the declaring file has the directive twice
 	DeclTwice bool `json:"declared_twice,omitempty"`
 	Root      bool `json:"workspace_root"`
@@ -276,9 +278,14 @@ func (sc c09Scenario) features(req int) string {
 		f = append(f, "the file was opened with unsaved text and closed again")
 	case "included-gains-include":
 		f = append(f, "the include lines of an included file arrived with an unsaved edit")
+	case "two-edits-after-analysis":
+		f = append(f, "two files edited without saving after the requester was analysed")
 	}
 	if sc.DeclTwice {
 		f = append(f, "declared twice in the declaring file")
+	}
+	if sc.DiagOff {
+		f = append(f, "diagnostics feature switched off")
 	}
 	return strings.Join(f, ", ")
 }
@@ -379,7 +386,12 @@ func c09Run(c *core.Ctx, dir string, sc c09Scenario, only *c09Case) {
 		if sc.Root {
 			root = dir
 		}
-		s.Initialize(wire.InitOpts{Root: root})
+		initOptions := ""
+		if sc.DiagOff {
+			// diagnostics are not shown; everything else answers as before
+			initOptions = `{"features":{"diagnostics":false}}`
+		}
+		s.Initialize(wire.InitOpts{Root: root, Options: initOptions})
 		s.Initialized()
 		mainOpened := false
 		if byEdit {
@@ -416,6 +428,29 @@ func c09Run(c *core.Ctx, dir string, sc c09Scenario, only *c09Case) {
 			editor[ef], open[ef] = disk[ef], false
 			kept = true
 		}
+		second := -1
+		var secondEditor *gmodel.Rendered
+		if sc.History == "two-edits-after-analysis" {
+			// two included files get unsaved edits after the requester was analysed
+			for g := 1; g < sc.N; g++ {
+				if g != sc.EditFile && g != req && second < 0 {
+					second = g
+				}
+			}
+			if second < 0 || sc.EditFile < 1 || sc.EditFile == req {
+				open[req] = wasOpen
+				continue
+			}
+			ef := sc.EditFile
+			secondEditor, editor[second] = editor[second], sc.journal(second, sc.Counts[second]+1, sym).Render()
+			s.DidOpen(uriOf(req), current(req).Text)
+			s.DidOpen(uriOf(ef), disk[ef].Text)
+			s.DidOpen(uriOf(second), disk[second].Text)
+			s.DidChangeFull(uriOf(ef), editor[ef].Text, 2)
+			s.DidChangeFull(uriOf(second), editor[second].Text, 2)
+			open[second] = true
+			kept = true
+		}
 		if sc.History == "saved" && sc.EditFile >= 0 && sc.EditFile != req {
 			// the edited file was opened with its saved text, changed, saved (file
 			// written, didSave) and closed; the requester stays open meanwhile
@@ -443,7 +478,7 @@ func c09Run(c *core.Ctx, dir string, sc c09Scenario, only *c09Case) {
 			}
 		}
 		for f := 0; f < sc.N; f++ {
-			if open[f] && !(kept && f == req) && !(mainOpened && f == 0) {
+			if open[f] && !(kept && f == req) && !(mainOpened && f == 0) && !(second >= 0 && (f == second || f == sc.EditFile)) {
 				s.DidOpen(uriOf(f), current(f).Text)
 			}
 		}
@@ -572,6 +607,9 @@ func c09Run(c *core.Ctx, dir string, sc c09Scenario, only *c09Case) {
 			}
 		}
 		open[req] = wasOpen
+		if second >= 0 {
+			editor[second], open[second] = secondEditor, false
+		}
 		if sc.EditFile >= 0 {
 			editor[sc.EditFile], open[sc.EditFile] = savedEditor, savedOpen
 			if savedDisk != nil {
@@ -720,6 +758,11 @@ func checkC09(c *core.Ctx) {
 											}
 											sc := c09Scenario{N: n, Parent: tree, Kind: kind, Counts: append([]int(nil), counts...), Decl: decl, Root: root, EditFile: ef, EditAdd: add, OpenAll: openAll}
 											c09Run(c, dir, sc, nil)
+											if n >= 2 && ef < 0 && !openAll && (total <= 2 || c.Thorough()) {
+												off := sc
+												off.DiagOff = true
+												c09Run(c, dir, off, nil)
+											}
 											if decl >= 0 && kind != "payee" && ef < 0 && !openAll && (total <= 2 || c.Thorough()) {
 												tw := sc
 												tw.DeclTwice = true
@@ -749,6 +792,10 @@ func checkC09(c *core.Ctx) {
 												}
 												if ef < 0 && !openAll && n >= 3 {
 													h.History = "included-gains-include"
+													c09Run(c, dir, h, nil)
+												}
+												if ef >= 1 && add && n >= 3 {
+													h.History = "two-edits-after-analysis"
 													c09Run(c, dir, h, nil)
 												}
 											}
